@@ -24,6 +24,10 @@ impl HashSet<String> {
     #[verifier::external_body]
     pub fn insert(&mut self, k: String) -> (r: bool) ensures final(self)@ == old(self)@.insert(k@) { unimplemented!() }
 }
+impl Clone for HashSet<String> {
+    #[verifier::external_body]
+    fn clone(&self) -> (r: Self) ensures r@ == self@ { unimplemented!() }
+}
 
 // ---- abstract view of the scope chain: innermost scope LAST
 pub type Frame = Map<Seq<char>, (SourcedValue, Location)>;
